@@ -40,12 +40,14 @@ pub fn generator(prop: &str) -> Option<Gen> {
         "C03" => Some(gen::gen_c03),
         "C09" => Some(gen::gen_c09),
         "C10" => Some(gen::gen_c10),
+        "C11" => Some(gen::gen_c11),
         _ => None,
     }
 }
 
 pub fn budget(prop: &str, tier: &str) -> u64 {
     let quick = match prop {
+        "C11" => 400,
         _ => 150,
     };
     if tier == "thorough" {
